@@ -4,10 +4,10 @@
    (C14/Model.v); [spec_*] are the map/filter readings of the property text (C14/Spec.v);
    [refs_in_range] is the part of tsk_table_collection_check_integrity(…,0) the functions
    rely on (every id column points inside its table or is NULL). *)
-From Coq Require Import List ZArith.
+From Coq Require Import List ZArith Bool.
 From Coq Require Import Permutation.
 From TskVerif Require Import Base.Common C14.Model C14.Spec C14.Basics C14.SubsetMain
-     C14.SubsetCorollaries C14.SubsetIdentity C14.UnionProofs C14.Examples.
+     C14.SubsetCorollaries C14.SubsetIdentity C14.UnionProofs C14.InverseProofs C14.Examples.
 Import ListNotations.
 Open Scope Z_scope.
 
@@ -120,3 +120,44 @@ Theorem union_checked_shared_equal : forall self other mapping add_populations u
     canonicalise s1 false = Ok s2 /\ canonicalise o1 false = Ok o2 /\
     tables_eqb s2 o2 = true.
 Proof. exact union_checked_equal_lemma. Qed.
+
+(* (g) split with subset, re-join with union.
+   FULL STATEMENT of the property (not proved as a theorem; decided by the `inverse`
+   correspondence family on every run, see notes/C14.md for the exact flag domain):
+     forall T valid, A B a two-part cover of the node set sharing the ancestral portion
+     (every edge, every individual link inside one part), S = py_subset T A, O = py_subset T B,
+     U = union S O (mapping_of A B):
+       canonicalise (py_subset U (original node order) keep-all) = canonicalise T
+     row for row in all six tables.
+   PROVED here, unbounded (any table collection with in-range references, any node lists
+   without repetitions, any flags): the edge table — the union of the two subsets holds exactly
+   the edges of T, each once, renamed by the single node renumbering [cover_id A B], provided
+   every edge of T has both ends in A or both ends in B.  Example ex_bad_cover_loses_edge shows
+   the hypothesis is needed.  MISSING for the full statement: sites / mutations (parents are
+   recomputed from the merged trees), individuals, populations, and the canonical sorters. *)
+Theorem subset_union_inverse_partial :
+  forall T A B keep_unreferenced no_change_populations check_shared add_populations S O U,
+  refs_in_range T = true ->
+  NoDup A -> NoDup B ->
+  (forall e, In e (t_edges T) -> edge_kept A e || edge_kept B e = true) ->
+  subset T A keep_unreferenced no_change_populations = Ok S ->
+  subset T B keep_unreferenced no_change_populations = Ok O ->
+  union S O (mapping_of A B) check_shared add_populations = Ok U ->
+  Permutation (t_edges U) (map (rename_edge (cover_id A B)) (t_edges T)).
+Proof. exact subset_union_inverse_edges_lemma. Qed.
+
+(* (g, node level) the re-joined collection has one node per element of A ∪ B and every listed
+   node of T is found at [cover_id A B u] with its flags, time and metadata (no cover
+   hypothesis needed for this part). *)
+Theorem subset_union_inverse_nodes_partial :
+  forall T A B keep_unreferenced no_change_populations check_shared add_populations S O U,
+  refs_in_range T = true ->
+  NoDup A -> NoDup B ->
+  subset T A keep_unreferenced no_change_populations = Ok S ->
+  subset T B keep_unreferenced no_change_populations = Ok O ->
+  union S O (mapping_of A B) check_shared add_populations = Ok U ->
+  zlen (t_nodes U) = zlen A + zlen (new_ids (mapping_of A B)) /\
+  forall u r, listed A u || listed B u = true -> getz (t_nodes T) u = Ok r ->
+    exists r', getz (t_nodes U) (cover_id A B u) = Ok r' /\
+               n_flags r' = n_flags r /\ n_time r' = n_time r /\ n_md r' = n_md r.
+Proof. exact subset_union_inverse_nodes_lemma. Qed.
